@@ -1118,6 +1118,19 @@ class EventBus:
         handler_id = get_handler_id(handler, self)
 
         logger.debug(f' ↳ {self}.execute_handler({event}, handler={get_handler_name(handler)}#{handler_id[-4:]})')
+
+        # The forwarding-loop check ran when the handlers of this event were selected. Since then the event may have reached
+        # the target bus by another route (a second forward to the same bus, or another bus processed inline by an awaiting
+        # handler): apply the same rule again right before forwarding, so no bus receives the event twice
+        if (
+            inspect.ismethod(handler)
+            and isinstance(handler.__self__, EventBus)
+            and handler.__name__ == 'dispatch'
+            and handler.__self__.name in event.event_path
+        ):
+            event.event_result_update(handler=handler, eventbus=self, result=None)
+            return None
+
         if handler_id in event.event_results:
             existing_result = event.event_results[handler_id]
             if existing_result.started_at is not None:
